@@ -862,6 +862,17 @@ def int_to_int(src_ty, e, dst_ty):
 
 def int_to_f64(src_ty, e):
     _, signed = INT_TYPES[src_ty]
+    # value-preserving extensions do not change the converted value: convert the narrow operand (keeps terms that
+    # denote the same number syntactically equal, which spares the solver a 128-bit int->float circuit)
+    while z3.is_app(e) and e.decl().kind() in (z3.Z3_OP_SIGN_EXT, z3.Z3_OP_ZERO_EXT):
+        k = e.decl().kind()
+        if k == z3.Z3_OP_SIGN_EXT and signed:
+            e = e.arg(0)
+        elif k == z3.Z3_OP_ZERO_EXT:
+            e = e.arg(0)
+            signed = False
+        else:
+            break
     return z3.fpSignedToFP(RNE, e, F64) if signed else z3.fpUnsignedToFP(RNE, e, F64)
 
 
